@@ -62,10 +62,20 @@ func (p *printer) stmt(stmt ast.Stmt, nextIsRBrace bool) {
 
 		case *ast.GenDecl:
 			p.setComment(d.Doc)
-			assert(len(d.Specs) == 1)
+			if len(d.Specs) != 1 {
+				// a grouped (possibly empty) declaration inside a function body
+				p.localDeclGroup(d)
+				break
+			}
 			if s, ok := d.Specs[0].(*ast.ValueSpec); ok {
-				assert(d.Tok == token.VAR)
-				p.print(d.Pos(), token.Zh_设定, token.K_点)
+				switch d.Tok {
+				case token.CONST, token.Zh_常量:
+					// a constant declared inside a function body
+					p.print(d.Pos(), token.Zh_常量, token.K_点)
+				default:
+					assert(d.Tok == token.VAR)
+					p.print(d.Pos(), token.Zh_设定, token.K_点)
+				}
 				p.spec_ValueSpec(s, 1, true)
 			} else {
 				panic("unreachable")
@@ -255,4 +265,31 @@ func isTypeName(x ast.Expr) bool {
 		return isTypeName(t.X)
 	}
 	return false
+}
+
+// localDeclGroup prints a grouped constant or variable declaration (keyword, colon, one specification per
+// line, closing keyword) that occurs as a statement.
+func (p *printer) localDeclGroup(d *ast.GenDecl) {
+	tok := token.Zh_设定
+	if d.Tok == token.CONST || d.Tok == token.Zh_常量 {
+		tok = token.Zh_常量
+	}
+	p.print(d.Pos(), tok, token.COLON)
+	if len(d.Specs) > 0 {
+		p.print(indent, formfeed)
+		var line int
+		for i, s := range d.Specs {
+			if i > 0 {
+				p.linebreak(p.lineFor(s.Pos()), 1, ignore, p.linesFrom(line) > 0)
+			}
+			p.recordLine(&line)
+			if vs, ok := s.(*ast.ValueSpec); ok {
+				p.spec_ValueSpec(vs, 1, false)
+			} else {
+				p.print("BadSpec")
+			}
+		}
+		p.print(unindent, formfeed)
+	}
+	p.print(d.Rparen, token.Zh_完毕)
 }
